@@ -21,9 +21,9 @@
         started again (TpDone requires done), and its successors only start after its End. *)
 EXTENDS JDFSem, Json, IOUtils
 CONSTANTS CheckOrder, CheckValues
-VARIABLES l, prog, space, seqfinal, st, att, cur, out, coll, phase
+VARIABLES l, prog, cp, space, seqfinal, st, att, cur, out, coll, phase
 
-vars == <<l, prog, space, seqfinal, st, att, cur, out, coll, phase>>
+vars == <<l, prog, cp, space, seqfinal, st, att, cur, out, coll, phase>>
 TraceLog == ndJsonDeserialize(IOEnv.TRACE)
 Ev == TraceLog[l]
 IsEv(e) == l <= Len(TraceLog) /\ Ev.e = e /\ l' = l + 1
@@ -31,20 +31,22 @@ IsEv(e) == l <= Len(TraceLog) /\ Ev.e = e /\ l' = l + 1
 NoProg == [name |-> "", classes |-> <<>>]
 CollSeq(c, n) == [i \in 1..n |-> c[i - 1]]
 
-TInit == /\ l = 1 /\ prog = NoProg /\ space = {} /\ seqfinal = <<>> /\ st = <<>> /\ att = <<>> /\ cur = <<>>
+TInit == /\ l = 1 /\ prog = NoProg /\ cp = <<>> /\ space = {} /\ seqfinal = <<>> /\ st = <<>> /\ att = <<>> /\ cur = <<>>
          /\ out = <<>> /\ coll = <<>> /\ phase = "reset"
 
 \* between executions: the program (and what was computed from it) is kept as a cache, everything else is cleared
 TReset == /\ IsEv("Reset")
           /\ phase' = "reset" /\ st' = <<>> /\ att' = <<>> /\ cur' = <<>> /\ out' = <<>> /\ coll' = <<>>
-          /\ UNCHANGED <<prog, space, seqfinal>>
+          /\ UNCHANGED <<prog, cp, space, seqfinal>>
 
 TProg == /\ IsEv("Prog") /\ phase = "reset"
-         /\ IF Ev.prog = prog THEN UNCHANGED <<prog, space, seqfinal>>
+         /\ IF Ev.prog = prog THEN UNCHANGED <<prog, cp, space, seqfinal>>
             ELSE /\ WellFormed(Ev.prog)
                  /\ prog' = Ev.prog
-                 /\ space' = Space(Ev.prog)
-                 /\ seqfinal' = IF CheckValues THEN SeqFinalAsSeq(Ev.prog) ELSE <<>>
+                 /\ LET c == Compile(Ev.prog) IN
+                    /\ cp' = c
+                    /\ space' = c.space
+                    /\ seqfinal' = IF CheckValues THEN SeqFinalAsSeq(Ev.prog, c) ELSE <<>>
          /\ phase' = "prog"
          /\ UNCHANGED <<st, att, cur, out, coll>>
 
@@ -52,26 +54,26 @@ TRun == /\ IsEv("Run") /\ phase = "prog"
         /\ st' = [t \in space |-> "idle"] /\ att' = [t \in space |-> 0] /\ cur' = <<>> /\ out' = <<>>
         /\ coll' = InitColl(prog)
         /\ phase' = "run"
-        /\ UNCHANGED <<prog, space, seqfinal>>
+        /\ UNCHANGED <<prog, cp, space, seqfinal>>
 
 TStart == /\ IsEv("Start") /\ phase = "run"
           /\ LET t == <<Ev.c, Ev.p>> IN
              /\ t \in space                                                   \* only instances of the space run
              /\ st[t] = "idle"                                                \* not running, not already done
              /\ Ev.a = att[t]
-             /\ Ev.l = LocalsOf(Class(prog, t[1]), EnvOf(prog, t))
-             /\ CheckOrder => \A q \in Preds(prog, t) : q \in space /\ st[q] = "done"
-             /\ CheckValues => Ev.r = Reads(prog, t, out, coll)
+             /\ Ev.l = cp.locs[t]
+             /\ CheckOrder => \A q \in cp.preds[t] : q \in space /\ st[q] = "done"
+             /\ CheckValues => Ev.r = Reads(prog, cp, t, out, coll)
              /\ st' = [st EXCEPT ![t] = "running"]
              /\ cur' = (t :> Ev.r) @@ cur
-          /\ UNCHANGED <<prog, space, seqfinal, att, out, coll, phase>>
+          /\ UNCHANGED <<prog, cp, space, seqfinal, att, out, coll, phase>>
 
 TAgain == /\ IsEv("Again") /\ phase = "run"
           /\ LET t == <<Ev.c, Ev.p>> IN
              /\ t \in space /\ st[t] = "running" /\ Ev.a = att[t]
              /\ st' = [st EXCEPT ![t] = "idle"]
              /\ att' = [att EXCEPT ![t] = @ + 1]
-          /\ UNCHANGED <<prog, space, seqfinal, cur, out, coll, phase>>
+          /\ UNCHANGED <<prog, cp, space, seqfinal, cur, out, coll, phase>>
 
 TEnd == /\ IsEv("End") /\ phase = "run"
         /\ LET t == <<Ev.c, Ev.p>> IN
@@ -80,20 +82,20 @@ TEnd == /\ IsEv("End") /\ phase = "run"
            /\ st' = [st EXCEPT ![t] = "done"]
            /\ LET cr == Carried(prog, t, cur[t], Ev.w) IN
               /\ out' = (t :> cr) @@ out
-              /\ coll' = IF CheckValues THEN WriteBack(prog, t, cr, 1, coll) ELSE coll
-        /\ UNCHANGED <<prog, space, seqfinal, att, cur, phase>>
+              /\ coll' = IF CheckValues THEN WriteBack(prog, cp, t, cr, 1, coll) ELSE coll
+        /\ UNCHANGED <<prog, cp, space, seqfinal, att, cur, phase>>
 
 \* termination detected: every instance of the space has run (exactly once, by st)
 TTpDone == /\ IsEv("TpDone") /\ phase = "run"
            /\ \A t \in space : st[t] = "done"
            /\ phase' = "done"
-           /\ UNCHANGED <<prog, space, seqfinal, st, att, cur, out, coll>>
+           /\ UNCHANGED <<prog, cp, space, seqfinal, st, att, cur, out, coll>>
 
 TFinal == /\ IsEv("Final") /\ phase = "done"
           /\ CheckValues => /\ Ev.coll = CollSeq(coll, prog.ntiles)
                             /\ Ev.coll = seqfinal
           /\ phase' = "final"
-          /\ UNCHANGED <<prog, space, seqfinal, st, att, cur, out, coll>>
+          /\ UNCHANGED <<prog, cp, space, seqfinal, st, att, cur, out, coll>>
 
 TNext == TReset \/ TProg \/ TRun \/ TStart \/ TAgain \/ TEnd \/ TTpDone \/ TFinal
 TSpec == TInit /\ [][TNext]_vars
